@@ -1,5 +1,541 @@
-from .core_props import run_prop
+"""C03 - Operator.apply returns exactly the PDDL successor, whatever the iteration order of the effect collections.
+
+Proof part: Props/C03.v (see its header).  Correspondence (Corr/C03.v): generated worlds (domain text + states + calls),
+the implementation's answers (applicability, successor in the observed / forced visiting order, exception class of a
+refusal, forced successor) against the model run in the SAME order and against the spec's successor.
+Streams: corpus (witnesses of findings), random typed domains (pddlgen), the same with a quantified 'when' condition
+planted (finding D40), with an inconsistent effect planted (no crash; the spec is silent, the model still binds when
+the order was observed), and a small scope enumerated exhaustively (thorough) or sampled (quick)."""
+import itertools
+import json
+import random
+
+from ..common import (Report, cbool, chex, clist, cstr, decide, load_findings, run_case_shards, run_impl,
+                      standard_proof_part)
+from .. import pddlgen as G
+from ..core_common import catom, count_groups, cstate
+
+PROP = "C03"
+HEADER = "From Coq Require Import PrimFloat.\nFrom Verif Require Import Spec.Pddl Corr.Core Corr.C03.\n"
+
+
+# ------------------------------------------------------------------------------------------------ literals
+def cobs_state(r):
+    return "(Returned %s)" % cstate(r["value"]) if r and "value" in r else "Raised"
+
+
+def cobs_bool(r):
+    return "(Returned %s)" % cbool(r["value"]) if r and "value" in r else "Raised"
+
+
+def nats(l):
+    return clist([str(int(i)) for i in l])
+
+
+def probe_literal(pr, st, r):
+    if "problem_raised" in r:
+        r = {"app": {}, "succ": {}, "forced": {}, "valerr": False, "order": [], "uorder": [], "obs_order": False}
+    return ("{| q_action := %s; q_args := %s; q_state := %s; q_obs_order := %s; q_order := %s; q_uorder := %s; "
+            "q_app := %s; q_succ := %s; q_valerr := %s; q_forced := %s |}") % (
+        cstr(pr["action"]), clist([cstr(a) for a in pr["args"]]), cstate(st), cbool(r.get("obs_order")),
+        nats(r.get("order", [])), nats(r.get("uorder", [])), cobs_bool(r.get("app")), cobs_state(r.get("succ")),
+        cbool(r.get("valerr")), cobs_state(r.get("forced")))
+
+
+def world_head(wd, res, eps_hex, prefix):
+    nums = clist(["(%s, %s)" % (cstr(k), chex(float.fromhex(v))) for k, v in sorted(res["nums"].items())])
+    objs = clist(["(%s, %s)" % (cstr(n), cstr(t)) for n, t in wd["objects"]])
+    return "%s_text := %s; %s_nums := %s; %s_eps := %s; %s_objs := %s" % (
+        prefix, cstr(wd["domain_text"]), prefix, nums, prefix, chex(float.fromhex(eps_hex)), prefix, objs)
+
+
+def full_literal(wd, res, eps_hex, only=None):
+    probes = []
+    for i, (pr, r) in enumerate(zip(wd["probes"], res["probes"])):
+        if only is not None and i != only:
+            continue
+        probes.append(probe_literal(pr, wd["states"][pr["state"]], r))
+    return "WFull {| %s; v_probes := %s |}" % (world_head(wd, res, eps_hex, "v"), clist(probes))
+
+
+def compact_state(wd, st):
+    """state dict -> (indices into the atom table, values in fluent-key order) or None when it does not fit"""
+    try:
+        idx = sorted(wd["atom_index"][(p, tuple(a))] for p, a in st["facts"])
+        vals = {(f, tuple(a)): v for f, a, v in st["fluents"]}
+        if set(vals) != set(wd["fkey_list"]):
+            return None
+        fl = [vals[k] for k in wd["fkey_list"]]
+    except KeyError:
+        return None
+    return "(%s, %s)" % (nats(idx), clist([chex(float.fromhex(v) if isinstance(v, str) else float(v)) for v in fl]))
+
+
+def cobs_cstate(wd, r):
+    if not r or "value" not in r:
+        return "Raised"
+    c = compact_state(wd, r["value"])
+    return None if c is None else "(Returned %s)" % c
+
+
+def compact_literal(wd, res, eps_hex):
+    """None when some observed state does not fit the tables (then the caller falls back to the full form)"""
+    probes = []
+    for pr, r in zip(wd["probes"], res["probes"]):
+        if "problem_raised" in r:
+            return None
+        s1, s2 = cobs_cstate(wd, r.get("succ")), cobs_cstate(wd, r.get("forced"))
+        if s1 is None or s2 is None:
+            return None
+        probes.append("{| xp_call := %d; xp_state := %d; xp_obs_order := %s; xp_order := %s; xp_uorder := %s; xp_app := %s; "
+                      "xp_succ := %s; xp_valerr := %s; xp_forced := %s |}" % (
+                          pr["call"], pr["state"], cbool(r.get("obs_order")), nats(r.get("order", [])),
+                          nats(r.get("uorder", [])), cobs_bool(r.get("app")), s1, cbool(r.get("valerr")), s2))
+    states = [compact_state(wd, st) for st in wd["states"]]
+    if any(s is None for s in states):
+        return None
+    atoms = clist([catom(p, list(a)) for p, a in wd["atom_list"]])
+    fkeys = clist([catom(f, list(a)) for f, a in wd["fkey_list"]])
+    calls = clist(["(%s, %s)" % (cstr(a), clist([cstr(x) for x in args])) for a, args in wd["calls"]])
+    return "WCompact {| %s; x_atoms := %s; x_fkeys := %s; x_states := %s; x_calls := %s; x_probes := %s |}" % (
+        world_head(wd, res, eps_hex, "x"), atoms, fkeys, clist(states), calls, clist(probes))
+
+
+# ------------------------------------------------------------------------------------------------ generation
+def has_forall(t):
+    return isinstance(t, list) and (bool(t) and t[0] == "forall" or any(has_forall(x) for x in t))
+
+
+def d40_class(action_tree_eff):
+    """some condition of a when / forall-when contains a quantifier"""
+    for item in action_tree_eff[1:]:
+        if isinstance(item, list) and item:
+            if item[0] == "when" and has_forall(item[1]):
+                return True
+            if item[0] == "forall" and isinstance(item[2], list) and item[2][0] == "when" and has_forall(item[2][1]):
+                return True
+    return False
+
+
+def n_perms(n):
+    f = 1
+    for i in range(2, n + 1):
+        f *= i
+    return f
+
+
+def perm_choices(rng, ngroups, nuniv, tier):
+    """None = the order the hash set happens to give; k = the k-th permutation of the parse order"""
+    total = n_perms(ngroups)
+    if ngroups + nuniv <= 1:
+        return [None]
+    if tier == "thorough" and ngroups <= 4:
+        ks = list(range(total))
+    else:
+        ks = sorted(set(rng.randrange(total) for _ in range(2))) if total > 1 else [0]
+    if nuniv > 1 and total == 1:
+        ks = [0, 1]
+    return [None] + ks
+
+
+def build_world(rng, w, tier, n_states, calls_per_action, name="dom", noise=True, stream="random"):
+    objs = G.gen_objects(rng, w)
+    text = G.render(w.domain_tree(name), rng, noise)
+    states, ptexts, probes = [], [], []
+    for si in range(n_states):
+        st = G.gen_state(rng, w, objs)
+        states.append(st)
+        ptexts.append(G.problem_text(w, objs, st, domain=name))
+        for a in w.actions:
+            nwhen, nuniv = count_groups(a)
+            for args in G.calls_for(rng, w, objs, a, limit=calls_per_action):
+                for k in perm_choices(rng, 1 + nwhen, nuniv, tier):
+                    probes.append({"action": a["name"], "args": args, "state": si, "perm": k,
+                                   "uperm": None if k is None else rng.randrange(max(1, n_perms(nuniv))),
+                                   "inner_seed": 0 if k is None else rng.randint(1, 10 ** 6),
+                                   "klass": None, "d40_class": d40_class(a["eff"]),
+                                   "shape": {"nwhen": nwhen, "nuniv": nuniv,
+                                             "numeric": sum(1 for x in flatten(a["eff"]) if x in ("assign", "increase", "decrease"))}})
+    return {"domain_text": text, "objects": objs, "states": states, "problem_texts": ptexts, "probes": probes,
+            "stream": stream, "features": sorted(w.features), "witness_of": None, "compact": False}
+
+
+def flatten(t):
+    if isinstance(t, str):
+        yield t
+    else:
+        for x in t:
+            yield from flatten(x)
+
+
+def plant_when_forall(rng, w):
+    """D40 class: put a quantified conjunct into the condition of some when / forall-when"""
+    cands = []
+    for a in w.actions:
+        for item in a["eff"][1:]:
+            if isinstance(item, list) and item and item[0] == "when":
+                cands.append((a, item))
+            elif isinstance(item, list) and item and item[0] == "forall" and item[2][0] == "when":
+                cands.append((a, item[2]))
+    unary = [(n, ps[0][1]) for n, ps in w.preds if len(ps) == 1]
+    if not cands or not unary:
+        return False
+    a, when = rng.choice(cands)
+    pn, pty = rng.choice(unary)
+    body = [pn, "?w"] if rng.random() < 0.7 else ["not", [pn, "?w"]]
+    q = ["forall", ["?w", "-", pty], [rng.choice(["and", "or"]), body]]
+    cond = when[1]
+    when[1] = (cond + [q]) if cond and cond[0] == "and" else ["and", cond, q]
+    w.features.add("when-forall")
+    return True
+
+
+def plant_del_add(rng, w):
+    """delete-then-add: one group both deletes and adds the same atom (consistent: the atom is there afterwards)"""
+    groups = []
+    for a in w.actions:
+        groups.append((a, None))
+        for item in a["eff"][1:]:
+            if isinstance(item, list) and item and item[0] == "when":
+                groups.append((a, item))
+            elif isinstance(item, list) and item and item[0] == "forall" and item[2][0] == "when":
+                groups.append((a, item[2]))
+    rng.shuffle(groups)
+    for a, when in groups:
+        if when is None:
+            prims = [x for x in a["eff"][1:] if isinstance(x, list) and x and x[0] not in ("when", "forall")]
+        else:
+            prims = when[2][1:] if when[2] and when[2][0] == "and" else [when[2]]
+        lits = [x for x in prims if x and x[0] not in ("assign", "increase", "decrease")]
+        if not lits:
+            continue
+        l = rng.choice(lits)
+        opposite = copy_tree(l[1]) if l[0] == "not" else ["not", copy_tree(l)]
+        if when is None:
+            pos = rng.randint(1, len(a["eff"]))
+            a["eff"] = a["eff"][:pos] + [opposite] + a["eff"][pos:]
+        else:
+            body = list(prims)
+            body.insert(rng.randint(0, len(body)), opposite)
+            when[2] = ["and"] + body
+        w.features.add("del-add-same-atom")
+        return True
+    return False
+
+
+def plant_inconsistent(rng, w):
+    """make two effect groups clash: a literal added by one and deleted by another, or a fluent assigned twice"""
+    a = rng.choice(w.actions)
+    prims = [x for x in a["eff"][1:] if isinstance(x, list) and x and x[0] not in ("when", "forall")]
+    if not prims:
+        return False
+    p = rng.choice(prims)
+    if p[0] in ("assign", "increase", "decrease"):
+        clash = [rng.choice(["assign", "increase"]), copy_tree(p[1]), rng.choice(["1", "2", "0.5"])]
+    elif p[0] == "not":
+        clash = copy_tree(p[1])
+    else:
+        clash = ["not", copy_tree(p)]
+    scope = list(a["params"])
+    cond = G.gen_form(rng, w, scope, 1, True, in_forall=True) if rng.random() < 0.5 else None
+    if cond is None:
+        # a condition that always holds and that every reader understands: (or L (not L))
+        lit = G.gen_atom(rng, w, scope)
+        if lit is None:
+            return False
+        cond = ["or", lit, ["not", copy_tree(lit)]]
+    a["eff"] = a["eff"] + [["when", cond, clash]]
+    w.features.add("inconsistent")
+    return True
+
+
+# ----- the small scope: one action over {p/1, q/0, f/1, h/0}, types u < t, objects o0 - t, o1 - u
+XS_PRIMS = [["p", "?x"], ["not", ["p", "?x"]], ["q"], ["not", ["q"]], ["increase", ["h"], "1"],
+            ["assign", ["h"], ["f", "?x"]], ["decrease", ["f", "?x"], ["h"]]]
+XS_CONDS = [["p", "?x"], ["not", ["q"]], [">", ["h"], "0"], ["or", ["q"], ["p", "?x"]],
+            ["and", ["q"], ["<=", ["f", "?x"], "1"]]]
+XS_WHEN_RES = [["q"], ["not", ["q"]], ["not", ["p", "?x"]], ["increase", ["h"], "2"],
+               ["and", ["p", "?x"], ["assign", ["f", "?x"], "0"]]]
+XS_ZCONDS = [["p", "?z"], ["not", ["=", "?z", "?x"]], ["and", ["p", "?z"], [">", ["f", "?z"], ["h"]]]]
+XS_ZRES = [["not", ["p", "?z"]], ["p", "?z"], ["increase", ["f", "?z"], "1"], ["q"]]
+XS_OBJS = [("o0", "t"), ("o1", "u")]
+XS_ATOMS = [("p", ("o0",)), ("p", ("o1",)), ("q", ())]
+XS_FKEYS = [("f", ("o0",)), ("f", ("o1",)), ("h", ())]
+XS_VALUATIONS = [(1.0, 2.0, 0.0), (0.0, 1.0, 3.0)]
+
+
+def xs_items():
+    items = [("prim", p) for p in XS_PRIMS]
+    items += [("when", ["when", c, r]) for c in XS_CONDS for r in XS_WHEN_RES]
+    items += [("forall", ["forall", ["?z", "-", ty], ["when", c, r]]) for ty in ("t", "u") for c in XS_ZCONDS for r in XS_ZRES]
+    return items
+
+
+def xs_bodies():
+    items = xs_items()
+    out = [[i] for i in items]
+    out += [[a, b] for a, b in itertools.combinations(items, 2)]
+    return out
+
+
+def xs_world(rng, body, tier):
+    body = list(body)
+    if rng.random() < 0.5:
+        body.reverse()
+    eff = ["and"] + [copy_tree(t) for _, t in body]
+    tree = ["define", ["domain", "xs"], [":requirements", ":typing", ":fluents", ":conditional-effects"],
+            [":types", "t", "-", "object", "u", "-", "t"],
+            [":predicates", ["p", "?a", "-", "t"], ["q"]], [":functions", ["f", "?a", "-", "t"], ["h"]],
+            [":action", "act", ":parameters", ["?x", "-", "t"], ":precondition", ["and"], ":effect", eff]]
+    text = G.render(tree)
+    states, ptexts = [], []
+    for mask in range(8):
+        for val in XS_VALUATIONS:
+            st = {"facts": [[p, list(a)] for i, (p, a) in enumerate(XS_ATOMS) if mask >> i & 1],
+                  "fluents": [[f, list(a), v] for (f, a), v in zip(XS_FKEYS, val)]}
+            states.append(st)
+            ptexts.append(xs_problem(st))
+    nwhen = sum(1 for k, _ in body if k == "when")
+    nuniv = sum(1 for k, _ in body if k == "forall")
+    calls = [("act", ["o0"]), ("act", ["o1"])]
+    probes = []
+    for si in range(len(states)):
+        for ci, (an, args) in enumerate(calls):
+            # the natural order for every probe; every other permutation on a rotating subset of the states
+            ks = [None]
+            total = n_perms(1 + nwhen)
+            if total > 1 or nuniv > 1:
+                ks.append((si + ci) % max(total, 2))
+            for k in ks:
+                probes.append({"action": an, "args": args, "state": si, "call": ci, "perm": k,
+                               "uperm": None if k is None else (si // 2) % max(1, n_perms(nuniv)),
+                               "inner_seed": 0 if k is None else 1 + si, "klass": None,
+                               "shape": {"nwhen": nwhen, "nuniv": nuniv,
+                                         "numeric": sum(1 for x in flatten(eff) if x in ("assign", "increase", "decrease"))}})
+    return {"domain_text": text, "objects": XS_OBJS, "states": states, "problem_texts": ptexts, "probes": probes,
+            "stream": "small-scope", "features": ["xs"], "witness_of": None, "compact": True, "calls": calls,
+            "atom_list": XS_ATOMS, "atom_index": {k: i for i, k in enumerate(XS_ATOMS)}, "fkey_list": XS_FKEYS}
+
+
+def copy_tree(t):
+    return t if isinstance(t, str) else [copy_tree(x) for x in t]
+
+
+def xs_problem(st):
+    init = [["=", [f] + a, repr(float(v))] for f, a, v in st["fluents"]] + [[p] + a for p, a in st["facts"]]
+    tree = ["define", ["problem", "xp"], [":domain", "xs"], [":objects", "o0", "-", "t", "o1", "-", "u"],
+            [":init"] + init, [":goal", ["and"]]]
+    return G.render(tree)
+
+
+def corpus_worlds():
+    out = []
+    for f in load_findings(PROP):
+        w = f.get("witness")
+        if not w or "domain_text" not in w:
+            continue
+        states, ptexts, probes = [], [], []
+        for pr in w.get("probes", []):
+            states.append(pr["state"])
+            ptexts.append(pr["problem_text"])
+            for k in (None, 0, 1):
+                probes.append({"action": pr["action"], "args": pr["args"], "state": len(states) - 1, "perm": k, "uperm": k,
+                               "inner_seed": 0, "klass": f["id"] if f.get("status") == "open" else None,
+                               "shape": {"nwhen": pr.get("nwhen", 0), "nuniv": pr.get("nuniv", 0), "numeric": 0}})
+        out.append({"domain_text": w["domain_text"], "objects": w.get("objects", []), "states": states,
+                    "problem_texts": ptexts, "probes": probes, "stream": "corpus:" + f["id"], "features": ["corpus:" + f["id"]],
+                    "witness_of": f["id"] if f.get("status") == "open" else None, "compact": False})
+    return out
+
+
+def generate(rng, tier):
+    worlds = corpus_worlds()
+    n = {"quick": 40, "thorough": 400}[tier]
+    for _ in range(n):
+        w = G.gen_world(rng, max_actions=2)
+        worlds.append(build_world(rng, w, tier, n_states=2, calls_per_action=3))
+    k = 0
+    while k < n // 4:
+        w = G.gen_world(rng, max_actions=2)
+        if plant_when_forall(rng, w):
+            worlds.append(build_world(rng, w, tier, n_states=2, calls_per_action=3, stream="when-forall"))
+            k += 1
+    k = 0
+    while k < n // 4:
+        w = G.gen_world(rng, max_actions=2)
+        if plant_del_add(rng, w):
+            worlds.append(build_world(rng, w, tier, n_states=2, calls_per_action=3, stream="del-add"))
+            k += 1
+    k, tries = 0, 0
+    while k < n // 4 and tries < 20 * n:
+        tries += 1
+        w = G.gen_world(rng, max_actions=1)
+        try:
+            ok = plant_inconsistent(rng, w)
+        except Exception:  # noqa
+            ok = False
+        if ok:
+            worlds.append(build_world(rng, w, tier, n_states=2, calls_per_action=3, stream="inconsistent"))
+            k += 1
+    bodies = xs_bodies()
+    if tier == "quick":
+        # a fixed core (delete+add of one atom in one group, a 'when' against an unconditional effect, two foralls,
+        # numeric read-after-write) plus a random sample
+        items = dict((json.dumps(t), (k, t)) for k, t in xs_items())
+
+        def it(t):
+            return items[json.dumps(t)]
+        core = [[it(["p", "?x"]), it(["not", ["p", "?x"]])], [it(["q"]), it(["not", ["q"]])],
+                [it(["assign", ["h"], ["f", "?x"]]), it(["decrease", ["f", "?x"], ["h"]])],
+                [it(["increase", ["h"], "1"]), it(["when", [">", ["h"], "0"], ["and", ["p", "?x"], ["assign", ["f", "?x"], "0"]]])],
+                [it(["forall", ["?z", "-", "t"], ["when", ["p", "?z"], ["not", ["p", "?z"]]]]),
+                 it(["forall", ["?z", "-", "u"], ["when", ["not", ["=", "?z", "?x"]], ["increase", ["f", "?z"], "1"]]])],
+                [it(["when", ["p", "?x"], ["not", ["p", "?x"]]]), it(["when", ["not", ["q"]], ["q"]])]]
+        bodies = core + rng.sample(bodies, 18)
+    for b in bodies:
+        worlds.append(xs_world(rng, b, tier))
+    return worlds, (tier == "thorough")
+
+
+# ------------------------------------------------------------------------------------------------ the check
+def run_worlds(worlds, hashseed):
+    jobs = [{"op": "c03.world", "domain_text": wd["domain_text"], "states": wd["problem_texts"],
+             "probes": [{k: p[k] for k in ("action", "args", "state", "perm", "uperm", "inner_seed")} for p in wd["probes"]]}
+            for wd in worlds]
+    return run_impl(jobs, hashseed=hashseed)
 
 
 def run(args):
-    return run_prop("C03", args)
+    rep = Report(PROP, args.tier, args.seed)
+    standard_proof_part(rep, PROP)
+    rng = random.Random(args.seed * 104729 + 3)
+    exhaustive = False
+    if args.replay:
+        data = json.load(open(args.replay))
+        worlds = [data["input"]["world"]]
+    else:
+        worlds, exhaustive = generate(rng, args.tier)
+    cfg = run_impl([{"op": "c03.numeric_config"}], nproc=1)[0]
+    hashseeds = [0] if args.tier == "quick" else [0, 1, 2]
+    all_cases, all_verdicts = [], ""
+    info_total = {"shards": 0, "shard_errors": [], "cmd": ""}
+    stats = {"worlds": 0, "worlds_by_stream": {}, "parse_raised": 0, "probes": 0, "app_true": 0, "app_false": 0, "app_raised": 0,
+             "succ_returned": 0, "refused_valueerror": 0, "succ_raised_other": 0, "forced_returned": 0,
+             "forced_returned_on_inapplicable": 0, "order_observed": 0,
+             "order_natural": 0, "order_forced": 0, "distinct_forced_orders": 0, "inner_sets_shuffled": 0,
+             "probes_with_when_fired": 0, "probes_with_when_not_fired": 0, "probes_with_both": 0,
+             "when_groups_fired": 0, "when_groups_not_fired": 0,
+             "probes_with_forall_when_fired": 0, "probes_with_forall_when_not_fired": 0,
+             "forall_when_instances_fired": 0, "forall_when_instances_not_fired": 0,
+             "probes_with_numeric_applied": 0, "numeric_effects_applied": 0, "discrete_effects_applied": 0,
+             "d40_class_probes": 0, "features": {}, "compact_worlds": 0, "compact_fallback_full": 0}
+    orders_seen = set()
+    for hs in hashseeds:
+        results = run_worlds(worlds, hs)
+        lits, units, keep = [], [], []
+        for wi, (wd, res) in enumerate(zip(worlds, results)):
+            if "probes" not in res:
+                if hs == hashseeds[0]:
+                    stats["parse_raised"] += 1
+                continue
+            lit = None
+            if wd.get("compact"):
+                lit = compact_literal(wd, res, cfg["epsilon"])
+                if hs == hashseeds[0]:
+                    stats["compact_worlds" if lit else "compact_fallback_full"] += 1
+            if lit is None:
+                lit = full_literal(wd, res, cfg["epsilon"])
+            lits.append(lit)
+            units.append(2 * len(wd["probes"]))
+            keep.append(wi)
+        verdicts, info = run_case_shards(PROP, "Corr.C03", lits, shard_size=8, units=units, header_extra=HEADER,
+                                         max_bytes=110_000)
+        info_total["shards"] += info["shards"]
+        info_total["shard_errors"] += info["shard_errors"]
+        info_total["cmd"] = info["cmd"]
+        pos = 0
+        for wi, lit in zip(keep, lits):
+            wd, res = worlds[wi], results[wi]
+            for pi, (pr, r) in enumerate(zip(wd["probes"], res["probes"])):
+                for kind in ("succ", "forced"):
+                    ch = verdicts[pos]
+                    pos += 1
+                    one = {"domain_text": wd["domain_text"], "objects": wd["objects"], "states": [wd["states"][pr["state"]]],
+                           "problem_texts": [wd["problem_texts"][pr["state"]]],
+                           "probes": [dict(pr, state=0, call=0)], "stream": wd["stream"], "features": wd["features"],
+                           "witness_of": wd.get("witness_of"), "compact": False}
+                    inp = {"world": one, "unit": kind, "hashseed": hs, "implementation": r}
+                    tr = r.get("trace", {})
+                    nontrivial = hs == hashseeds[0] and ("value" in r.get("succ", {})) and (
+                        tr.get("when_fired", 0) + tr.get("when_not", 0) + tr.get("univ_fired", 0) + tr.get("univ_not", 0) > 0
+                        or tr.get("numeric_applied", 0) > 0 or tr.get("discrete_applied", 0) > 1)
+                    all_cases.append({"lit": lit, "input": inp, "nontrivial": nontrivial,
+                                      "witness_of": wd.get("witness_of"), "klass": pr.get("klass")})
+                    all_verdicts += ch
+        if hs == hashseeds[0]:
+            for wd, res in zip(worlds, results):
+                stats["worlds"] += 1
+                stats["worlds_by_stream"][wd["stream"].split(":")[0]] = stats["worlds_by_stream"].get(wd["stream"].split(":")[0], 0) + 1
+                for f in wd["features"]:
+                    stats["features"][f] = stats["features"].get(f, 0) + 1
+                for pr, r in zip(wd["probes"], res.get("probes", [])):
+                    stats["probes"] += 1
+                    a = r.get("app", {})
+                    stats["app_true" if a.get("value") is True else "app_false" if a.get("value") is False else "app_raised"] += 1
+                    if "value" in r.get("succ", {}):
+                        stats["succ_returned"] += 1
+                    elif r.get("valerr"):
+                        stats["refused_valueerror"] += 1
+                    else:
+                        stats["succ_raised_other"] += 1
+                    if "value" in r.get("forced", {}):
+                        stats["forced_returned"] += 1
+                        if a.get("value") is False:
+                            stats["forced_returned_on_inapplicable"] += 1
+                    stats["order_observed"] += 1 if r.get("obs_order") else 0
+                    stats["order_natural" if pr.get("perm") is None else "order_forced"] += 1
+                    stats["inner_sets_shuffled"] += 1 if pr.get("inner_seed") else 0
+                    if pr.get("perm") is not None:
+                        orders_seen.add((len(r.get("order", [])), tuple(r.get("order", [])), tuple(r.get("uorder", []))))
+                    stats["d40_class_probes"] += 1 if pr.get("d40_class") else 0
+                    tr = r.get("trace")
+                    if tr:
+                        stats["when_groups_fired"] += tr["when_fired"]
+                        stats["when_groups_not_fired"] += tr["when_not"]
+                        stats["probes_with_when_fired"] += 1 if tr["when_fired"] else 0
+                        stats["probes_with_when_not_fired"] += 1 if tr["when_not"] else 0
+                        stats["probes_with_both"] += 1 if tr["when_fired"] and tr["when_not"] else 0
+                        stats["forall_when_instances_fired"] += tr["univ_fired"]
+                        stats["forall_when_instances_not_fired"] += tr["univ_not"]
+                        stats["probes_with_forall_when_fired"] += 1 if tr["univ_fired"] else 0
+                        stats["probes_with_forall_when_not_fired"] += 1 if tr["univ_not"] else 0
+                        stats["probes_with_numeric_applied"] += 1 if tr["numeric_applied"] else 0
+                        stats["numeric_effects_applied"] += tr["numeric_applied"]
+                        stats["discrete_effects_applied"] += tr["discrete_applied"]
+    stats["distinct_forced_orders"] = len(orders_seen)
+    decide(rep, PROP, "Corr.C03", all_cases, all_verdicts, info_total, explain_expr="explain (%s)", header_extra=HEADER,
+           max_replays=5)
+    cov = rep.coverage
+    cov["input_distribution"] = stats
+    cov["hash_seeds"] = hashseeds
+    cov["numeric_config"] = cfg
+    cov["exhaustive"] = bool(exhaustive)
+    cov["exhaustive_scope"] = ("all effect bodies of 1 or 2 items out of %d (7 primitive effects, 25 'when', 24 'forall-when' over types t and its "
+                               "subtype u) x all 8 fact sets over {p o0, p o1, q} x 2 fluent valuations x 2 calls: %d bodies%s"
+                               % (len(xs_items()), len(xs_bodies()), "" if exhaustive else " (quick tier: a sample of 24 bodies)"))
+    cov["rule"] = ("streams: corpus witnesses; random typed domains (pddlgen: <=4 types, constants, 2-4 predicates, <=3 functions, actions with "
+                   "add/del/assign/increase/decrease/when/forall-when kept consistent, layout/case/comment noise), 2-3 objects, random states, "
+                   "type-correct calls incl. repeated objects and constants; the same with a quantified conjunct planted in a 'when' condition (D40 class); "
+                   "the same with a clashing 'when' planted (inconsistent: judged only for 'no crash' by the spec, still compared with the model when the "
+                   "visiting order was observed); the small scope. Every (state, call) is applied in the natural hash order and in forced permutations of "
+                   "the parse order (all permutations in thorough when <=4 groups), sets inside a group shuffled too; two units per probe: successor with "
+                   "default flags (incl. ValueError on refusal) and forced successor (allow_inapplicable_actions). Non-trivial: the call returned a "
+                   "successor and evaluated at least one conditional/universal group, or applied a numeric effect, or >=2 literals; distinct by input hash.")
+    cov["samples"] = [c["input"]["world"]["domain_text"][:500] for c in all_cases[:1]] + \
+                     [{"stream": c["input"]["world"]["stream"], "probe": c["input"]["world"]["probes"][0]["action"],
+                       "args": c["input"]["world"]["probes"][0]["args"], "order": c["input"]["implementation"].get("order"),
+                       "uorder": c["input"]["implementation"].get("uorder")} for c in all_cases[-3:]]
+    rep.assumptions = ["fluent magnitudes below 1e4 and no division by a fluent (C12 covers the arithmetic kernel)", "ASCII text",
+                       "states define every fluent",
+                       "effects consistent (inconsistent probes are skipped by the spec's own test; model = implementation is still required when the order was observed)"]
+    return rep.finish()
